@@ -58,6 +58,21 @@ def run(ctx):
             ok = any("Diff" in ty and fp[-1:] == ("range",) for ty, fp in r) and any("Diff" in ty and fp[-1:] == ("replacement",) for ty, fp in p)
             detail = "range <- %s ; replacement <- %s" % (sorted(r), sorted(p))
         ctx.ob("R1", "applier reads Diff.range / Diff.replacement", ok, detail, where=f.loc())
+        # …and takes them as they are: what -U splices is the announced replacement at the announced range, not a trimmed / re-encoded
+        # copy (a fix written as a YAML block scalar ends in a line break that --json announces)
+        if ag:
+            from ..query import identity_flow
+            for fld in ("replacement", "range"):
+                terms, foreign = identity_flow(prog, f, ops[fld], lambda g, o, fld=fld: o.kind in ("param", "local") and fld in field_path(o.proj) and "Diff" in " ".join(map(str, o.proj)))
+                same = bool(terms) and not foreign
+                # a moved value edited in place (`replacement.pop()`) keeps its provenance: no mutable borrow of a String / Range here
+                muts = [st for bi in f.live_blocks for st in f.blocks[bi]["s"] if st[0] == "A" and st[2][0] == "ref" and st[2][1] != "shared" and
+                        (("String" in f.locals[st[2][2][0]] and fld == "replacement") or ("Range<usize>" in f.locals[st[2][2][0]] and fld == "range"))]
+                if muts:
+                    same = False
+                    foreign = list(foreign) + ["in-place mutation at %s" % f.loc(muts[0][3])]
+                ctx.ob("R1", "applier takes Diff.%s as it is" % fld, same, "InteractiveDiff.%s = Diff.%s" % (fld, fld) if same else
+                       "what -U/-i splice is not the announced Diff.%s as it is (passes through %s): the bytes written differ from the edit --json reports" % (fld, sorted(set(foreign)) or "another value"), where=f.loc())
     # announcers
     n_ann = 0
     for f in prog.find_fns(r"^ast_grep::print::json_print::(MatchJSON|RuleMatchJSON)::<.*>::diff$"):
